@@ -26,6 +26,16 @@ from ..sexpr import scm_str
 
 IMPORTS = "(import (scheme base) (scheme write) (scheme process-context) (chibi regexp))"
 
+# local copy of the case macro that flushes the marker before the case runs (a watchdog expiry inside a case is
+# otherwise blamed on the previous case and the rest of the file is lost)
+PRELUDE = C.PRELUDE + r"""
+(define-syntax %case*
+  (syntax-rules ()
+    ((_ id body ...) (begin (newline) (display "#") (display 'id) (newline) (flush-output-port)
+                            body ...
+                            (flush-output-port)))))
+"""
+
 HEADER = r"""
 (define (%spans m)
   (if m
@@ -194,6 +204,15 @@ def chibi_cset_sre(e):
     return False
 
 
+def cset_suffix_start(alts):
+    """chibi compiles (or a b c) as a fork of a and (or b c), and any `or` whose members are ALL char-set SREs
+    (also a one-member `or`) as a single char-set: returns the index from which on that happens, or None."""
+    k = len(alts)
+    while k > 0 and chibi_cset_sre(alts[k - 1]):
+        k -= 1
+    return k if k < len(alts) else None
+
+
 def cs_is_big(e):
     """Contains a complement or a named class: the union is (nearly) all of Unicode."""
     t = e[0]
@@ -272,14 +291,19 @@ class Oracle:
                 r = self.compose(r, self.ev(x, foldp, asciip, capture, inrep))
             return r
         if t == "or":
-            if self.alt and (foldp or asciip) and chibi_cset_sre(e):
+            alts = e[1]
+            r = [0] * (n + 1)
+            if self.alt and (foldp or asciip) and cset_suffix_start(alts) is not None:
+                k = cset_suffix_start(alts)
+                tail = ("or", alts[k:])
+
                 def pred(c):
                     if not foldp:
-                        return cs_member(e, c, False, False)
-                    return any(cs_member(e, x, False, False) for x in UNIVERSE if fold(x) == fold(c))
-                return self.chars(pred)
-            r = [0] * (n + 1)
-            for x in e[1]:
+                        return cs_member(tail, c, False, False)
+                    return any(cs_member(tail, x, False, False) for x in UNIVERSE if fold(x) == fold(c))
+                r = self.chars(pred)
+                alts = alts[:k]
+            for x in alts:
                 a = self.ev(x, foldp, asciip, capture, inrep)
                 r = [p | q for p, q in zip(r, a)]
             return r
@@ -595,16 +619,18 @@ class Gen:
         return (w, self.gen(d - 1, f2))
 
     def gen_or(self, d, foldp):
-        """Generator rule (DESIGN C20 notes): when every member of an `or` is a char-set SRE chibi compiles
-        the `or` as ONE char-set and, under w/nocase, case-folds that whole set character by character in
-        Scheme.  With a complement or a named class among the members that set is (almost) all of Unicode
-        and the compilation takes ~90 s (slow, not the subject of this property): such shapes get one
-        member that is not a char-set.  Small compound members stay (they compile at once)."""
+        """Generator rule (DESIGN C20 notes): an `or` -- or the TAIL of an `or`, chibi compiles (or a b c) as a fork
+        of a and (or b c) -- whose members are all char-set SREs is compiled as ONE char-set and, under
+        w/nocase, that whole set is case-folded character by character in Scheme.  With a complement or a
+        named class among the members the set is (almost) all of Unicode and compiling takes 90-150 s (slow,
+        not the subject of this property): such shapes get a LAST member that is not a char-set.  Small
+        compound members stay (they compile at once)."""
         r = self.r
         k = r.randrange(2, 4) if r.random() < 0.85 else 1
         alts = [self.gen(d - 1, foldp) for _ in range(k)]
-        if foldp and all(chibi_cset_sre(x) for x in alts) and any(cs_is_big(x) for x in alts):
-            alts.insert(r.randrange(len(alts) + 1), ("str", self.ch() + self.ch()))
+        k = cset_suffix_start(alts)
+        if foldp and k is not None and any(cs_is_big(x) for x in alts[k:]):
+            alts.append(("str", self.ch() + self.ch()))      # must come last: every all-char-set SUFFIX is one char-set
         return ("or", tuple(alts))
 
 
@@ -616,7 +642,8 @@ def nocase_inside(e, foldp=False):
         return e
     if t == "or":
         alts = [nocase_inside(x, foldp) for x in e[1]]
-        if foldp and all(chibi_cset_sre(x) for x in alts) and any(cs_is_big(x) for x in alts):
+        k = cset_suffix_start(alts)
+        if foldp and k is not None and any(cs_is_big(x) for x in alts[k:]):
             alts.append(("str", "ab"))
         return ("or", tuple(alts))
     if t == "seq":
@@ -673,7 +700,7 @@ FIXED = [
 # named class): a handful, separately timed, watchdog expiry = inconclusive
 SLOW = [
     ("case", ("nocase", ("or", (("not", ("set", "a")), ("lit", "b"))))),
-    ("case", ("nocase", ("or", (("cls", "any"), ("lit", "b"))))),
+    ("case", ("nocase", ("or", (("str", "ab"), ("cls", "any"))))),
 ]
 
 
@@ -801,7 +828,7 @@ def has_flagged_cset_or(e, foldp=False, asciip=False):
     if t in CS_KINDS or t in ANCHORS or t == "str":
         return False
     if t == "or":
-        if (foldp or asciip) and chibi_cset_sre(e):
+        if (foldp or asciip) and cset_suffix_start(e[1]) is not None:
             return True
         return any(has_flagged_cset_or(x, foldp, asciip) for x in e[1])
     if t == "seq":
@@ -922,7 +949,7 @@ def _work(batch):
     b, header, timeout = _W["build"], _W["header"], _W["timeout"]
     cases = [(it["id"], "(%%case* %s (%%run-sre '%s %s %d))" % (it["id"], it["sre"], it["pool"], it["npred"])) for it in batch]
     res, procs = C.run_file(b, IMPORTS, header, cases, env_extra={"CHIBI_VERIF_HEAPCHECK": 1}, timeout=timeout,
-                            heap="64M/768M")
+                            heap="64M/768M", prelude=PRELUDE)
     outs = []
     for it in batch:
         o = judge_sre(it, res.get(it["id"]))
